@@ -1,6 +1,7 @@
 package props
 
 import (
+	"errors"
 	stdjson "encoding/json"
 	"fmt"
 	"reflect"
@@ -34,6 +35,7 @@ type c19Cont struct {
 	del     func(c any, k int)
 	filter  func(c any, p func(k, v int) bool)
 	mapv    func(c any, f func(k, v int) int)
+	mapErr  func(c any, failAt int) // Map whose callback flips values and fails (zero value + error) at key failAt
 	find    func(c any, p func(k, v int) bool) (c19KV, bool)
 	each    func(c any) []c19KV
 	eachS   func(c any) []c19KV
@@ -114,6 +116,14 @@ func c19Containers() []*c19Cont {
 				return ruleVal(f(strKey(k), ruleInt(v))), nil
 			})
 		},
+		mapErr: func(c any, failAt int) {
+			c.(*schema.RuleASTNodes).Map(func(k string, v schema.RuleASTNode) (schema.RuleASTNode, error) {
+				if strKey(k) == failAt {
+					return schema.RuleASTNode{}, errors.New("callback refuses this key")
+				}
+				return ruleVal(flip(ruleInt(v))), nil
+			})
+		},
 		find: func(c any, p func(k, v int) bool) (c19KV, bool) {
 			it, ok := c.(*schema.RuleASTNodes).Find(func(k string, v schema.RuleASTNode) bool { return p(strKey(k), ruleInt(v)) })
 			return c19KV{strKey(it.Key), ruleInt(it.Value)}, ok
@@ -154,6 +164,14 @@ func c19Containers() []*c19Cont {
 		mapv: func(c any, f func(k, v int) int) {
 			c.(*schema.ASTNodes).Map(func(k string, v schema.ASTNode) (schema.ASTNode, error) { return astVal(f(strKey(k), astInt(v))), nil })
 		},
+		mapErr: func(c any, failAt int) {
+			c.(*schema.ASTNodes).Map(func(k string, v schema.ASTNode) (schema.ASTNode, error) {
+				if strKey(k) == failAt {
+					return schema.ASTNode{}, errors.New("callback refuses this key")
+				}
+				return astVal(flip(astInt(v))), nil
+			})
+		},
 		find: func(c any, p func(k, v int) bool) (c19KV, bool) {
 			it, ok := c.(*schema.ASTNodes).Find(func(k string, v schema.ASTNode) bool { return p(strKey(k), astInt(v)) })
 			return c19KV{strKey(it.Key), astInt(it.Value)}, ok
@@ -191,6 +209,14 @@ func c19Containers() []*c19Cont {
 		mapv: func(c any, f func(k, v int) int) {
 			c.(*ischema.Constraints).Map(func(k constraint.Type, v constraint.Constraint) (constraint.Constraint, error) {
 				return conVal(f(conKey(k), conInt(v))), nil
+			})
+		},
+		mapErr: func(c any, failAt int) {
+			c.(*ischema.Constraints).Map(func(k constraint.Type, v constraint.Constraint) (constraint.Constraint, error) {
+				if conKey(k) == failAt {
+					return nil, errors.New("callback refuses this key")
+				}
+				return conVal(flip(conInt(v))), nil
 			})
 		},
 		find: func(c any, p func(k, v int) bool) (c19KV, bool) {
@@ -304,6 +330,8 @@ func (o c19Op) String() string {
 		return "Filter(keep " + o.P + ")"
 	case "map":
 		return "Map(flip)"
+	case "maperr":
+		return fmt.Sprintf("Map(flip, error at %q)", c19Keys[o.K])
 	case "new":
 		return "NewStringSet(" + o.P + ")"
 	}
@@ -350,6 +378,9 @@ func c19Alphabet(ct *c19Cont) []c19Op {
 		ops = append(ops, c19Op{Kind: "filter", P: p})
 	}
 	ops = append(ops, c19Op{Kind: "map"})
+	for k := 0; k < 3; k++ {
+		ops = append(ops, c19Op{Kind: "maperr", K: k})
+	}
 	return ops
 }
 
@@ -382,6 +413,16 @@ func c19Apply(ct *c19Cont, c any, r *c19Ref, op c19Op) {
 		ct.mapv(c, func(k, v int) int { return flip(v) })
 		for k, v := range r.data {
 			r.data[k] = flip(v)
+		}
+	case "maperr":
+		// the entries before the refused key are mapped, the refused one and those
+		// after it stay as they are
+		ct.mapErr(c, op.K)
+		for _, it := range r.items() {
+			if it.K == op.K {
+				break
+			}
+			r.data[it.K] = flip(it.V)
 		}
 	}
 }
@@ -618,7 +659,7 @@ func init() {
 	Register(&Prop{
 		ID:        "C19",
 		Technique: "explicit-state BFS over (private container state, reference dictionary) pairs driven through the real methods, plus exhaustive operation sequences up to a depth bound",
-		Rule: "operations Set/Update/Delete(present and absent)/Filter(6 predicates)/Map on three keys (one plain, two that need JSON escaping: quote+backslash+control, DEL+non-ASCII+U+2028) x values {1,2} for RuleASTNodes, ASTNodes, Constraints; Add and NewStringSet(every argument list of <=3 keys) for StringSet; after every step Len/Has/Get/GetValue/Each/EachSafe/Find/MarshalJSON are compared with an insertion-ordered dictionary; " +
+		Rule: "operations Set/Update/Delete(present and absent)/Filter(6 predicates)/Map/Map with a callback that fails at a key on three keys (one plain, two that need JSON escaping: quote+backslash+control, DEL+non-ASCII+U+2028) x values {1,2} for RuleASTNodes, ASTNodes, Constraints; Add and NewStringSet(every argument list of <=3 keys) for StringSet; after every step Len/Has/Get/GetValue/Each/EachSafe/Find/MarshalJSON are compared with an insertion-ordered dictionary; " +
 			"states = distinct (impl dump, reference) pairs, non-trivial = histories of length >= 2",
 		Shards: func(string) int { return 16 },
 		Bounds: func(tier string) map[string]any {
